@@ -4,12 +4,15 @@ Exhaustive over ordered pairs (old, new) of model sets: (a) FM x FM for one
 field, (b) MM x MM for one model (incl. reordered lists), (c) every start
 spec of S1/S2/S3 against each of its depth-1 successors, both directions,
 (d) signature-level variants that only differ in representation (explicit
-defaults, tuple vs list, reordered index/constraint lists)."""
+defaults, tuple vs list, reordered index/constraint lists), (e) the hinted
+evolution executed through Evolver(hinted=True) on a real database (one and
+two apps, label equal to / different from the package name)."""
 import itertools
 import time
 
 from vf import spec as S, starts, mutlang as ML, alphabet as AL
 from vf import refstate as R, materialize as MZ, findings, explore
+from vf import drivers as D, bootstrap as B, engine_b as EB, observe as O
 from vf.spec import F, M, A, P
 from vf.checks import common, c03
 
@@ -358,6 +361,64 @@ def variants():
     return out
 
 
+def exec_starts():
+    """Start projects for the hinted-execution family: one and two apps,
+    with the label equal to / different from the package name."""
+    out = []
+    n = c03.narrow_start()
+    out.append(('narrow', n))
+    pkg = S.clone(n)
+    pkg['apps'][0]['package'] = 'vapkg'
+    out.append(('narrow-pkg', pkg))
+    t = c03.two_model_start()
+    out.append(('two-model', t))
+    tp = S.clone(t)
+    tp['apps'][-1]['package'] = tp['apps'][-1]['label'] + 'pkg'
+    out.append(('two-model-pkg', tp))
+    return out
+
+
+def check_exec(name, old_p, new_p, mj, add, stats):
+    """The hinted evolution run the way `evolve --hint --execute` runs it:
+    Evolver(hinted=True) over all apps, on a database installed from the
+    old models.  If the run succeeds, nothing may be left to resolve and
+    the schema must be the one of the new models."""
+    from django_evolution.evolve import Evolver
+    from django_evolution.placeholders import BasePlaceholder
+    from django_evolution.diff import Diff
+    stats['exec_pairs'] = stats.get('exec_pairs', 0) + 1
+    replay = {'kind': 'exec', 'name': name, 'old': old_p, 'new': new_p}
+    img = D.baseline(old_p)
+    MZ.install(new_p)
+    B.restore(img, 'default')
+    B.reset_globals()
+    try:
+        ev = Evolver(hinted=True)
+        ev.queue_evolve_all_apps()
+        hint = ev.initial_diff.evolution()
+        if any(isinstance(getattr(m, 'initial', None), BasePlaceholder)
+               for muts in hint.values() for m in muts):
+            stats['exec_needs_user_input'] = \
+                stats.get('exec_needs_user_input', 0) + 1
+            return
+        ev.evolve()
+    except Exception as e:  # noqa
+        D._abort_transactions('default')
+        stats['exec_failed'] = stats.get('exec_failed', 0) + 1
+        return
+    stats['exec_ok'] = stats.get('exec_ok', 0) + 1
+    ok, diffs = EB.stored_vs_current()
+    if not ok:
+        add('C05|hinted-execution-leaves-difference|%s|%s' % (
+            '+'.join(c03.norm_diff(diffs[0] + diffs[1]))[:100],
+            c03.abstract_path([mj])), replay, {'residual': diffs[0][:300]})
+        return
+    ent = R.fresh(new_p)
+    if O.schema_dump('default', skip=c03.SKIP_TABLES) != ent['schema']:
+        add('C05|hinted-execution-schema-differs|%s|%s' % (
+            name.split('+')[0], c03.abstract_path([mj])), replay, {})
+
+
 def work(task):
     kind, payload = task
     stats = {'pairs': 0, 'identical': 0, 'nontrivial': 0, 'mutations': 0,
@@ -413,6 +474,17 @@ def work(task):
             check_pair('predecessor', '%s-%s' % (name, mj[0]), p2, project,
                        add, stats)
         stats['samples'].append('successors of %s' % name)
+    elif kind == 'exec':
+        name, project = payload
+        for label, mj in AL.enabled(project, level='lite'):
+            if mj[0] in ('RenameAppLabel', 'DeleteApplication',
+                         'SQLBarrier', 'RenameModel', 'RenameField'):
+                # (renames are hinted as delete + add: another evolution)
+                continue
+            p2 = ML.apply(project, label, mj)
+            check_exec('%s+%s' % (name, mj[0]), project, p2, (label, mj),
+                       add, stats)
+        stats['samples'].append('hinted execution from %s' % name)
     elif kind == 'variants':
         for name, a, b in variants():
             stats['pairs'] += 1
@@ -430,6 +502,8 @@ def run(tier, seed, confirm=True):
     level = 'lite' if tier == 'quick' else 'full'
     for name, p in starts.s1() + starts.s2() + starts.s3() + EXTRA_STARTS:
         tasks.append(('succ', (name, p, level)))
+    for name, p in exec_starts():
+        tasks.append(('exec', (name, p)))
     total = {}
     coll = findings.Collector(PROP)
     for stats, viol in explore.run_tasks('vf.checks.c05.work', tasks,
@@ -453,6 +527,11 @@ def run(tier, seed, confirm=True):
         'pairs_needing_user_input_placeholder': total['needs_user_input'],
         'eq_vs_diff_checks': total['eq_checks'],
         'identical_pairs': total['identical'],
+        'hinted_executions_through_the_evolver': {
+            'pairs': total.get('exec_pairs', 0),
+            'executed_and_judged': total.get('exec_ok', 0),
+            'run_failed_left_to_C01': total.get('exec_failed', 0),
+            'needs_user_input': total.get('exec_needs_user_input', 0)},
     }
     print('C05 %s: %d pairs (%d non-trivial hints, %d mutations), %d '
           'eq-vs-diff checks' % (tier, total['pairs'], total['nontrivial'],
@@ -476,6 +555,16 @@ def replay(path):
     if r.get('kind') == 'variant':
         st, viol = work(('variants', None))
         found = {fp: e['detail'] for fp, e in viol.items()}
+    elif r.get('kind') == 'exec':
+        mj = None
+        for label, cand in AL.enabled(r['old'], level='lite'):
+            try:
+                if S.canon(ML.apply(r['old'], label, cand)) == \
+                        S.canon(r['new']):
+                    mj = (label, cand)
+            except ML.Disabled:
+                pass
+        check_exec(r['name'], r['old'], r['new'], mj, add, stats)
     else:
         check_pair(r['kind'], r['name'], r['old'], r['new'], add, stats)
     for fp, d in found.items():
